@@ -16,11 +16,42 @@ def make_engine(prop: str, steer: List[str]):
         from .engine_a import EngineA
 
         return EngineA("C04", steer)
+    if prop == "C11":
+        from .engine_c11 import EngineC11
+
+        return EngineC11("C11", steer)
     raise KeyError(prop)
 
 
+NOT_APPLICABLE = {
+    "C01": "pure conversion functions of their input: no clock, random stream, file, collaborator, retained state or failure path for a simulator to vary (DESIGN.md section 4)",
+    "C02": "pure multilinear kernels; a function of the arguments only (DESIGN.md section 4)",
+    "C03": "pure element-wise operators; a function of the arguments only (DESIGN.md section 4)",
+    "C06": "quantifies over the stored order of an input value; results are a pure function of that input (engine A reaches unsorted orders through histories but C06 itself has no history, fault or schedule)",
+    "C07": "pure index maps",
+    "C08": "single-call re-parameterisations of one object: no nondeterminism, fault or history in the statement",
+    "C09": "CP-ALS has no deadline, I/O or retained state; its random start and print-only branches are decided under C18, non-modification of operands under C05; the numerical contract is a pure function of the inputs",
+    "C10": "same reasoning as C09 (HOSVD is deterministic; Tucker-ALS random start is decided under C18)",
+    "C12": "pure calculus identities of the loss functions",
+    "C14": "pure linear algebra (the ARPACK start-vector state is put behind a seam for harness determinism, but the property is insensitive to it by construction)",
+    "C15": "pure function of its arguments",
+    "C17": "pure helper functions",
+}
+
+ENGINES = [
+    {"name": "tensor-history", "path": "sim/engine_a.py", "serves_properties": ["C04", "C19"], "kind_free_text": "seeded read/write histories on a dense+sparse pair vs. a reference model; malformed requests as faults"},
+    {"name": "solver-world/cp_apr", "path": "sim/engine_c11.py", "serves_properties": ["C11"], "kind_free_text": "CP-APR under a simulated clock; deadline fired at every iteration boundary"},
+]
+
 CHECKS = {
     "C04": {
+        "manifest": {
+            "engine": "tensor-history",
+            "design_ref": "DESIGN.md section 3, engine A",
+            "level_text": "Seeded search over histories: each run drives a dense tensor and a sparse tensor in lock-step through 4-30 reads/writes in every documented key form (growth, order growth, zero writes, mixed batches, unsorted sparse storage, malformed requests as faults) and compares the full state of both with a dict-of-cells reference model after every step. A clean batch is evidence over the sampled histories, not a proof; violations are ddmin-minimised and replayed in fresh interpreters before being reported.",
+            "level_note": "Trusted: the reference model (sim/engine_a.py Model), numpy. Narrowings: no duplicate positions in one batch, no length-1 index lists, float64 values, no slice steps, negative slice bounds only in reads. Two recorded known findings (dense multi-index-list regions) are driven through the subscript-array form on the dense side.",
+            "technique": "deterministic simulation: seeded history search against an executable reference model (refinement), ddmin + JSON replay",
+        },
         "level": "exploration",
         "quick": {"runs": 16000, "wall": 150},
         "thorough": {"runs": 600000, "wall": 1500},
@@ -40,6 +71,37 @@ CHECKS = {
         "assumptions": [
             "narrowings listed in DESIGN.md section 3 (engine A): no duplicate positions within one batch, no length-1 index lists, float values only, no slice steps",
             "sampling, not enumeration",
+        ],
+    },
+    "C11": {
+        "manifest": {
+            "engine": "solver-world/cp_apr",
+            "design_ref": "DESIGN.md section 3, engine C, C11",
+            "level_text": "For every sampled problem the simulated clock fires the CP-APR deadline at every outer-iteration boundary in turn (complete enumeration of deadline positions per problem), plus sampled clock anomalies; the whole C11 contract (rank/shape, non-negativity, reported objective == independently recomputed Poisson log-likelihood, one non-negative KKT entry per iteration performed -- counted independently through the clock seam --, iteration limit, likelihood >= start, data and guess untouched) is checked at every return, and a cut by time must be bit-identical to the cut by iteration count. Problems themselves are sampled.",
+            "level_note": "Trusted: harness' own Kruskal-to-dense and log-likelihood (20 lines), SimClock. Order >= 2 only. PQNR's documented 'first iterate is bad' abort ends the run and is counted.",
+            "technique": "deterministic simulation: scripted clock seam, enumeration of deadline positions, differential oracle time-cut vs count-cut",
+        },
+        "level": "fault_enumeration",
+        "quick": {"runs": 2400, "wall": 200},
+        "thorough": {"runs": 60000, "wall": 1500},
+        "chunk": 10,
+        "rule": (
+            "one case = one sampled CP-APR problem (count tensor dense/sparse with empty slices, rank, "
+            "non-negative guess incl. all-zero rows, algorithm mu/pdnr/pqnr, option set) run under a "
+            "simulated clock with the deadline fired at EVERY outer-iteration boundary in turn (complete "
+            "enumeration per problem) plus sampled clock kinds (backward jump, freeze, elapsed==stoptime, "
+            "stoptime=0, clock running backwards); the C11 contract is checked at every return and a cut by "
+            "time must equal the cut by count. Non-trivial = at least one deadline cut executed or >= 3 solves; "
+            "distinct = distinct digest of (problem, steps, observations)."
+        ),
+        "state_measure": "hash of (algorithm, iterations performed, step kind)",
+        "components": {
+            "real": REAL_ALL,
+            "simulated": ["time module as seen by pyttb.cp_apr (SimClock)", "stdout sink", "ARPACK start vector", "np.random seeded per solve"],
+        },
+        "assumptions": [
+            "order >= 2 (the dense log-likelihood matricises on mode 1)",
+            "PQNR's abort 'L-BFGS first iterate is bad' (pinned by the repository's own tests as expected) ends a run and is counted, not reported",
         ],
     },
 }
